@@ -58,7 +58,7 @@ STRICT = {
     "compose": {"id": CR.COMPOSE["id"], "type": CR.COMPOSE["type"], "date": CR.COMPOSE["date"], "respin": CR.COMPOSE["respin"],
                 "label": ["GA", "RC-1", 5, "Beta-1.0.1", "rc-1.0"]},
     "release": {"name": [None, 5], "short": [None, 5], "version": ["1.", "1..2", None, 5, "1a", ""], "type": ["bogus", None, 5]},
-    "base_product": {"name": [None, 5], "short": [None, 5], "version": ["1.", None, "1a"], "type": ["bogus", None]},
+    "base_product": {"name": [None, 5], "short": [None, 5], "version": ["1.", None, "1a"], "type": ["bogus", None, "GA", "Eus"]},
     "variant": {"id": ["bad-id", "", None, 5], "uid": ["Misaligned", None, 5], "name": ["", None, 5], "type": ["bogus", None], "arches": [[], None, 5]},
     "image": {"path": ["", None, 5], "type": ["bogus", None, 5], "format": ["bogus", None], "arch": ["", None, 5], "checksums": [{}, None, []],
               "implant_md5": ["xyz", "A" * 32, 5], "volume_id": ["", 5], "subvariant": [None, 5], "size": [0, None, "x", []], "mtime": [None, "x", []],
@@ -123,6 +123,20 @@ def corruptions(rng, kind, doc, n):
             if key in tgt:
                 del tgt[key]
                 out.append({"doc": d, "what": "delete-key:%s.%s" % (skind, key), "must_reject": True})
+        elif k < 0.55 and kind == "images":
+            # cross-field rule: additional variants only on a unified image
+            skind, path = rng.choice([x for x in secs if x[0] == "image"])
+            tgt = at(d, path)
+            if tgt.get("additional_variants"):
+                if rng.random() < 0.5:
+                    tgt["unified"] = False
+                else:
+                    tgt.pop("unified", None)
+                out.append({"doc": d, "what": "cross-field:image.unified off with additional_variants", "must_reject": True})
+            else:
+                tgt["additional_variants"] = ["Server"]
+                tgt.pop("unified", None)
+                out.append({"doc": d, "what": "cross-field:image.additional_variants on a plain image", "must_reject": True})
         else:
             skind, path = rng.choice(secs)
             f, vals = rng.choice(list(STRICT[skind].items()))
